@@ -1,6 +1,7 @@
 (* C02 — property theorems only (each closed by `exact <lemma>` and followed by Print Assumptions). *)
 From Coq Require Import List NArith Bool Arith Permutation Sorted.
-From MW Require Import Common.Str C01.Model C02.Model C02.Proofs C02.ProofsQuotes C02.ModelLines C02.ProofsLines C02.ModelApo C02.ProofsApo.
+From MW Require Import Common.Str C01.Model C02.Model C02.Proofs C02.ProofsQuotes C02.ModelLines C02.ProofsLines C02.ModelApo C02.ProofsApo C02.ProofsApoU
+  C01.Passes C01.PassesPre C01.PassesTable C02.ProofsCaption.
 Import ListNotations.
 
 (* Sections (core.py:90-146,178-193): for every sequence of headings (any levels, any captions) and blocks, the
@@ -132,3 +133,77 @@ Example C02_quotes_surplus_examples :
   length (filter surplus_line (lines_upto surplus_bound)) = 646.
 Proof. exact quotes_surplus_examples. Qed.
 Print Assumptions C02_quotes_surplus_examples.
+
+(* ... and UNBOUNDED (C02/ProofsApoU.v): a line of ANY length with exactly one run that is one apostrophe longer than the markup,
+   all styles closed at the end of the line and - when the long run has three apostrophes - no other run of three, for EVERY
+   tie-breaking order of sort_states (any sorter that permutes its input and orders it by score): compute_path returns the
+   denoted path - the surplus apostrophe is literal text, the rest of the long run and every other run toggle as written.
+   (The state of the denoted reading is never confused with another one: before the long run it is the only state with
+   apocount 0; afterwards it has apocount 1 and every other state kept has apocount >= 2 - long run of four - or is the
+   bold-stays-open reading (0, bold, opposite italic) - long run of three; it has a score <= 3, only 12 keys do, so the cut to
+   32 keeps it; at the end it is (1, off, off) with score 1 and every other state has a score >= 2.) *)
+Theorem C02_quotes_surplus_apostrophe :
+  forall sorter : list pst -> list pst,
+  (forall l, Permutation (sorter l) l) ->
+  (forall l, StronglySorted (fun a b => score (fst a) <= score (fst b)) (sorter l)) ->
+  forall rs : list qrun, surplus_line rs = true ->
+  compute_path sorter (map count_of rs) = Ok (apo_path 0 false false rs).
+Proof. exact quotes_surplus. Qed.
+Print Assumptions C02_quotes_surplus_apostrophe.
+
+(* the hypotheses on the sorter are satisfiable: both extreme tie-breaking orders *)
+Theorem C02_quotes_surplus_apostrophe_two_orders : forall rs : list qrun, surplus_line rs = true ->
+  compute_path stable_sort (map count_of rs) = Ok (apo_path 0 false false rs) /\
+  compute_path antistable_sort (map count_of rs) = Ok (apo_path 0 false false rs).
+Proof. exact quotes_surplus_two_orders. Qed.
+Print Assumptions C02_quotes_surplus_apostrophe_two_orders.
+
+(* non-vacuity beyond the bound of the computed theorem: 39 italic runs and a possessive (40 runs) *)
+Example C02_quotes_surplus_long_example : surplus_line long_surplus_line = true /\ length long_surplus_line = 40.
+Proof. exact quotes_surplus_long_example. Qed.
+Print Assumptions C02_quotes_surplus_long_example.
+
+(* Table captions (parse_table.py:260-301 find_caption + parse_complex_caption; model C01/PassesTable.v find_caption, tied to the real
+   code on abstract token lists): on a caption line `|+ body` - in front of it only whitespace tokens, body any run of tokens the loop
+   walks over (everything but a line end or a complex node other than a <ref>), in which a `|` occurs only after a `[[` (the pipe of
+   a link label is not an attribute separator), the line ended by `stop` - the children of the table become: what was in front, ONE
+   caption node holding exactly the tokens of body in order, then stop and the rest.  Neither the `|+` token nor anything else
+   becomes caption content. *)
+Theorem C02_caption_split_plain :
+  forall (ws : list (gtok tkd)) (c : N) (k body : list (gtok tkd)) (stop : gtok tkd) (rest : list (gtok tkd)),
+  forallb blank_tok ws = true -> forallb cap_tok body = true -> cap_tok stop = false -> open_first body = true ->
+  find_caption (ws ++ GTok TCaption c k :: body ++ stop :: rest) = ws ++ GTok TCaptionNode 0%N body :: stop :: rest.
+Proof. exact caption_split_plain. Qed.
+Print Assumptions C02_caption_split_plain.
+
+(* `|+ attributes | body`: attributes without `|` and `[[`; body arbitrary (labelled links included): the caption node holds exactly
+   body - the attributes and the separating pipe are not text *)
+Theorem C02_caption_split_attrs :
+  forall (ws : list (gtok tkd)) (c : N) (k attrs : list (gtok tkd)) (b : N) (kb body : list (gtok tkd)) (stop : gtok tkd)
+         (rest : list (gtok tkd)),
+  forallb blank_tok ws = true -> forallb cap_tok attrs = true -> forallb (fun t => negb (bar_or_open t)) attrs = true ->
+  forallb cap_tok body = true -> cap_tok stop = false ->
+  find_caption (ws ++ GTok TCaption c k :: (attrs ++ GTok TBar b kb :: body) ++ stop :: rest)
+  = ws ++ GTok TCaptionNode 0%N body :: stop :: rest.
+Proof. exact caption_split_attrs. Qed.
+Print Assumptions C02_caption_split_attrs.
+
+(* what a table with a caption denotes: the caption's inline content under a caption node in front of the rows; its text comes
+   first, then the text of the cells *)
+Theorem C02_caption_denoted : forall (cap : list inl) (rows : list (list (bool * list inl))),
+  den_block (BTableC cap rows) =
+    [Node LTable (Node LCaption (den_inline cap) ::
+                  map (fun row => Node LRow (map (fun cell => Node (LCell (fst cell)) (den_inline (snd cell))) row)) rows)] /\
+  leaves_l (den_block (BTableC cap rows)) = leaves_l (den_inline cap) ++ leaves_l (den_block (BTable rows)).
+Proof. exact caption_denoted. Qed.
+Print Assumptions C02_caption_denoted.
+
+(* `|+ Alpha [[Gamma|delta]] beta` and `|+ align="bottom" | Alpha [[Gamma|delta]] beta`: the same caption node *)
+Example C02_caption_examples :
+  find_caption (GTok TNewline 0%N [] :: GTok TCaption 1%N [] :: ex_body ++ [GTok TNewline 9%N []; GTok TRowNode 10%N []])
+  = [GTok TNewline 0%N []; GTok TCaptionNode 0%N ex_body; GTok TNewline 9%N []; GTok TRowNode 10%N []] /\
+  find_caption (GTok TNewline 0%N [] :: GTok TCaption 1%N [] :: ([ex_tx 11] ++ GTok TBar 12%N [] :: ex_body) ++ [GTok TNewline 9%N []; GTok TRowNode 10%N []])
+  = [GTok TNewline 0%N []; GTok TCaptionNode 0%N ex_body; GTok TNewline 9%N []; GTok TRowNode 10%N []] /\
+  open_first ex_body = true /\ forallb cap_tok ex_body = true.
+Proof. exact caption_examples. Qed.
+Print Assumptions C02_caption_examples.
